@@ -104,7 +104,7 @@ What is proved (for every `v`, `f`, `n`, every schedule and arrival time unless 
       With `no_deadlock_with_signals`: every run with finitely many spurious wake-ups and signals that is continued
       as long as a thread of pdsh can move ends, and it ends with dsh() returned or exit(1) called;
 * `cancel_requested_after_drain`, `signals_thread_ended_before_return`, `ended_thread_is_silent`,
-  `progress_needs_only_sigwait`, `watchdog_stopped_first`
+  `progress_needs_only_sigwait`, `watchdog_stopped_first`, `thread_array_not_touched_after_free`
       the shutdown tail ("an interrupt during the final drain"): pthread_cancel(thread_sig) is a *request* (`St.scan`);
       the thread runs on and ends (`SAct.die`) at a cancellation point — the model lets that be any point of a handler,
       at the latest sigwait, so every C library is covered.  The request is made only when every worker is done and no
@@ -691,6 +691,34 @@ theorem ended_thread_is_silent {s : St} (hc : s.spc = .cancelled) (a : SAct) : s
   split
   · rfl
   · cases a <;> simp [sStep, hc]
+
+/-- C20, the set-up / tear-down that fix f3532d1 (F20-LATEINT) and 7eedfb6 (F07-STALEID) repaired, as one statement: with
+    the repaired shutdown, once dsh() has returned — it goes on to free `t[]` — neither the signals thread nor the
+    watchdog takes another step, under any schedule and whatever signals are still delivered: nothing walks the
+    thread array after it is freed.  (Both were asked to end only after the final drain, `cancel_requested_after_drain`,
+    and dsh() waited for both, `watchdog_stopped_first`, `signals_thread_ended_before_return`.) -/
+theorem thread_array_not_touched_after_free {v : Variant} {g : Bool} {f n t0 : Nat} {b : Bool} {s : St}
+    (h : Reach v g true f n b t0 s) (hr : s.dpc = .returned) :
+    (∀ a, step s (.s a) = none) ∧ (∀ a, step s (.g a) = none) ∧ (∀ i a, step s (.w i a) = none) := by
+  have hinv := inv_reach h
+  obtain ⟨hsc, hsp⟩ := signals_thread_ended_before_return h hr
+  obtain ⟨_, hge, _, _⟩ := watchdog_stopped_first h hsc
+  refine ⟨fun a => ended_thread_is_silent hsp a, fun a => ?_, fun i a => ?_⟩
+  · simp only [step]
+    split
+    · rfl
+    · cases a <;> simp [gStep, hge]
+  · simp only [step]
+    split
+    · rfl
+    · simp only [wStep]
+      cases hp : s.ws[i]? with
+      | none => rfl
+      | some p =>
+        have hi : i < s.ws.length := lt_of_getElem?' hp
+        have hpc : pc s i = p := getD_of_getElem?' hp
+        rcases hinv.f.fin (by rw [hr]; rfl) i hi with h1 | h1 <;> rw [hpc] at h1 <;> subst h1 <;>
+          cases a <;> simp [wNext]
 
 /-- C20: the cancellation takes effect only after it was requested -/
 theorem ends_only_on_request {s s' : St} (hs : step s (.s .die) = some s') : s.scan = true ∧ s'.spc = .cancelled := by
